@@ -33,7 +33,8 @@ def specs : List (String × Kernel × List Ival) := [
   ("Scalar_reduce512_w32", Scalar_reduce512, full 8 32 ++ full 16 32),
   ("Scalar_Mul2_full", Scalar_Mul2, full 24 32),
   ("Scalar_NegateVal_full", Scalar_NegateVal, full 16 32),
-  ("Scalar_IsOverHalfOrder_full", Scalar_IsOverHalfOrder, full 8 32)
+  ("Scalar_IsOverHalfOrder_full", Scalar_IsOverHalfOrder, full 8 32),
+  ("Scalar_mul512Rsh320Round_full", Scalar_mul512Rsh320Round, full 16 32)
 ]
 
 end Secp.KernelSpecs
